@@ -168,7 +168,9 @@ pub fn gen_logical(rng: &mut Rng, reg: &PortableRegistry) -> Logical {
         }
     }
     let switches = Switches {
-        root: rng.pick(&["root", "types", "my_types"]).to_string(),
+        root: rng
+            .pick(&["root", "types", "my_types", "root", "types", "r#try"])
+            .to_string(),
         alloc: match rng.below(3) {
             0 => None,
             1 => Some("::alloc".into()),
